@@ -133,6 +133,10 @@ def gen_cases(ctx):
                     if param in ("structname", "template-data", "replace-type"):
                         # the same levels with all mocks of a package written to one output file (per-file state must not blur per-mock settings)
                         cases.append({"kind": "levels", "param": param, "subset": s, "polarity": pol, "seed": rng.randrange(1 << 30), "onefile": True})
+    # replace-type explicitly set to an EMPTY map at the most specific level of the subset: an empty map is a setting (no replacement), not an absence
+    for s in ([["root", "cfg"], ["pkg", "iface"], ["root", "pkg", "iface", "cfg"]] if ctx.tier == "quick" else [x for x in subsets if len(x) >= 2]):
+        for onefile in (False, True):
+            cases.append({"kind": "levels", "param": "replace-type", "subset": s, "polarity": None, "seed": rng.randrange(1 << 30), "onefile": onefile, "empty_most_specific": True})
     # source layering: env < file < flags
     env_params = ["dir", "filename", "pkgname", "structname", "formatter", "template", "force-file-write", "all", "include-interface-regex"]
     for p in env_params:
@@ -239,6 +243,8 @@ def eval_levels(ctx, case):
     param, subset, pol = case["param"], case["subset"], case["polarity"]
     cfg = base_config(param)
     mk = markers(param, subset, rng, pol)
+    if case.get("empty_most_specific"):
+        mk[[l for l in LEVELS if l in subset][-1]] = {}
     if case.get("onefile"):
         cfg["filename"] = "f_all.go"
     if param == "structname":
